@@ -43,6 +43,16 @@ impl Mode {
 
 /// Round the rational num/den (den > 0) to a multiple of q (q > 0); returns the multiple itself.
 pub fn round_rational(num: i128, den: i128, q: i128, mode: Mode) -> i128 {
+    round_rational_signed(num, den, q, mode, num > 0)
+}
+
+/// RoundNumberToIncrementAsIfPositive: directions are those of a positive number whatever the sign
+/// (used by Temporal for values on the epoch line: trunc = floor = towards the Big Bang).
+pub fn round_as_if_positive(x: i128, q: i128, mode: Mode) -> i128 {
+    round_rational_signed(x, 1, q, mode, true)
+}
+
+fn round_rational_signed(num: i128, den: i128, q: i128, mode: Mode, positive: bool) -> i128 {
     assert!(den > 0 && q > 0);
     // k1 = floor(num / (den q)); r1 = k1 q
     let dq = den * q;
@@ -53,7 +63,6 @@ pub fn round_rational(num: i128, den: i128, q: i128, mode: Mode) -> i128 {
     if rem == 0 {
         return r1;
     }
-    let positive = num > 0;
     match mode {
         Mode::Ceil => r2,
         Mode::Floor => r1,
